@@ -456,10 +456,23 @@ def gen_local(rng, k, focus):
     """scenarios for the thread-local hosts: 3 of 5 without any spawn-link, the rest spawn-linked
     trees and supervision bursts (all compared with the model, c_local = true)"""
     if k % 5 < 3:
-        return gen_scenario(rng, focus if k % 2 else "mixed", link_p=0.0)
-    if k % 5 == 3:
-        return gen_scenario(rng, focus if k % 2 else "mixed")
-    return gen_supburst(rng)
+        sc = gen_scenario(rng, focus if k % 2 else "mixed", link_p=0.0)
+    elif k % 5 == 3:
+        sc = gen_scenario(rng, focus if k % 2 else "mixed")
+    else:
+        sc = gen_supburst(rng)
+    # An abort is alone in its burst (the generator already settles before it; here also after it).
+    # Aborting a thread-local actor that is still inside start() cancels a task of the MAIN runtime;
+    # its effect (the builder on the spawner thread is dropped, the subtree is killed) reaches the
+    # spawner one hop later than the wake-ups of operations issued after it in the same burst, whereas
+    # the model's LAbort (like the single run queue of mode `send`) takes effect at once.
+    ops = []
+    for i, o in enumerate(sc["ops"]):
+        ops.append(o)
+        if o[0] == "abort" and (i + 1 == len(sc["ops"]) or sc["ops"][i + 1][0] != "settle"):
+            ops.append(("settle",))
+    sc["ops"] = ops
+    return sc
 
 
 def run_loop_check(chk, oracle_fn, focus, what, accept=lambda o: o == "true"):
